@@ -956,7 +956,8 @@ PROPS = {
         prop_file="Properties/C11.v",
         check_module="C11Check",
         theorems={t: [] for t in ["C11_hash_map_roundtrip", "C11_handle_table_roundtrip", "C11_owned_roundtrip",
-                                  "C11_value_roundtrip", "C11_owned_fuel", "C11_insert_keeps_tables",
+                                  "C11_value_roundtrip", "C11_owned_fuel", "C11_owned_fuel_stable",
+                                  "C11_insert_keeps_tables",
                                   "C11_nan_key_row_lost"]},
         n_quick=160, n_thorough=1500,
         gates=["hm.Json", "hm.Cbor", "hm.Bincode", "ht.Json", "ht.Cbor", "ht.Bincode", "rt.module.Json",
